@@ -138,7 +138,12 @@ func (s journalChunkSource) getManyCompressed(ctx context.Context, eg *errgroup.
 			return true, gcBehavior_Block, nil
 		}
 		jReqs = append(jReqs, journalRecord{r: rang, idx: i})
-		reqs[i].found = true
+	}
+	// found flags are set only once the whole walk has succeeded: after a keeper block part way
+	// through, the caller retries with the same slice, and the reads of the records before the
+	// block have not been issued (see archiveChunkSource.resolve).
+	for _, jr := range jReqs {
+		reqs[jr.idx].found = true
 	}
 
 	// sort chunks by journal locality
